@@ -654,6 +654,10 @@ func (l *Lexer) skipComment(noPanic bool) bool {
 
 func (l *Lexer) skipCommentUntil(end string, mustEnd bool, noPanic bool) bool {
 	pos := token.Pos(l.pos)
+	if mustEnd {
+		// The "*" of the opener "/*" is not the "*" of a closer: "/*/" is not a complete comment.
+		l.skipN(2)
+	}
 	for !l.eof() {
 		if l.slice(0, len(end)) == end {
 			l.skipN(len(end))
